@@ -253,7 +253,10 @@ Res(w0, r0, v, ew, er, D, p) ==
            \* With a deviation enabled the selection is the one the deviations presuppose (value-driven):
            \* an unnamed branch of the written kind is taken untried; otherwise the first branch of the written
            \* kind the VALUE resolves against (names not consulted); otherwise the first branch it resolves against.
-           ok(i) == ~IsErr(Res(w, r.branches[i], v, ew, er, D, p))
+           \* every branch is tried ONCE (the results are kept): evaluating Res per test and again for the chosen
+           \* branch would be exponential in the nesting depth of recursive values
+           tried == IF D = {} THEN <<>> ELSE TLCEval([i \in 1..n |-> Res(w, r.branches[i], v, ew, er, D, p)])
+           ok(i) == ~IsErr(tried[i])
            kind(i) == LET b == Deref(r.branches[i], er) IN
                       IF w.k \in LeafKinds THEN b.k \in LeafKinds /\ BaseKind(b.k) = BaseKind(w.k) ELSE b.k = w.k
            same == {i \in 1..n : kind(i)}
@@ -268,7 +271,7 @@ Res(w0, r0, v, ew, er, D, p) ==
            pick == IF D # {} THEN impl
                    ELSE IF p.order = "exact" /\ ex # {} THEN ex ELSE m
        IN IF pick = {} THEN Err
-          ELSE LET i == MinOf(pick)  x == Res(w, r.branches[i], v, ew, er, D, p) IN
+          ELSE LET i == MinOf(pick)  x == IF D = {} THEN Res(w, r.branches[i], v, ew, er, D, p) ELSE tried[i] IN
                IF IsErr(x) THEN Err ELSE [t |-> "union", i |-> i - 1, v |-> x]
   ELSE CASE w.k \in LeafKinds ->
               IF r.k \in LeafKinds THEN LeafConv(w, r, v, D)
